@@ -411,6 +411,12 @@ func (p *Parser) parseProviderArgument(pkg *packages.Package, kessokuPackageScop
 					return nil
 				}
 				continue
+			case *ast.ParenExpr:
+				currentArg = v.X
+			case *ast.SelectorExpr:
+				currentArg = v.Sel
+			default:
+				return fmt.Errorf("invalid Set call expression")
 			}
 		}
 
